@@ -47,7 +47,7 @@ def main():
              engines=[dict(name='cbmc-dfcc', path='bin/check', serves_properties=[c['property_id'] for c in checks],
                            kind_free_text='clang JSON AST -> C extraction (extract/ast2c.py) + C contracts of std:: (cstl/, cstl_u/) + per-function contracts (contracts/*.spec) enforced with goto-instrument --dfcc and discharged by cbmc 6.11; unbounded-capacity harnesses (contracts_u/) discharged by cbmc --z3; relational harnesses for range operations (lib/rel.py)')],
              checks=checks,
-             notes='See DESIGN.md section 0 for what was built. Six fix: commits in /repo (rr back-pointer, lfuda age order, utlru ttl order, observers under the lock, utlru ttl under the lock, tlru pre-lock read) are recorded in known_findings.json; one known finding remains (F5: ut_map/ut_set with a zero TTL). Every quick check finishes within 900 s cold on 16 cores (route U units first, 500 s each; an unfinished route U unit leaves the bounded result standing). Both tiers stop at the first refuted obligation of a public method; a refuted contract of a private helper is a violation unless every public method that uses it was verified in the same run at the same capacity with nothing refuted (DESIGN.md section 16). 60 seeded changes from sub-agents: 59 detected, one refused by design (exit 2); 14 behaviour-preserving refactorings: no alarm.',
+             notes='See DESIGN.md section 0 for what was built. Six fix: commits in /repo (rr back-pointer, lfuda age order, utlru ttl order, observers under the lock, utlru ttl under the lock, tlru pre-lock read) are recorded in known_findings.json; one known finding remains (F5: ut_map/ut_set with a zero TTL). Every quick check finishes within 900 s cold on 16 cores (route U units first, 500 s each; an unfinished route U unit leaves the bounded result standing). Both tiers stop at the first refuted obligation of a public method; a refuted contract of a private helper is a violation unless every public method that uses it was verified in the same run at the same capacity with nothing refuted (DESIGN.md section 16). 63 seeded changes from sub-agents: 62 detected, one refused by design (exit 2); 14 behaviour-preserving refactorings: no alarm.',
              not_applicable=na)
     json.dump(m, open(os.path.join(VERIF, 'MANIFEST.json'), 'w'), indent=1)
     print('MANIFEST: %d claimed, %d not claimed' % (len(checks), len(na)))
